@@ -6,7 +6,7 @@ CONSTANTS
   GivenIds = {}
   NumIds = {}
   SrcForms = {"absent", "ref"}
-  RefSuffixes = {"", "??;t!o"}
+  RefSuffixes = {"", "??;t!o", "?!o"}
   AddrSuffixes = {""}
   UriSuffixes = {""}
   SrcHosts = {"localhost"}
